@@ -12,7 +12,7 @@ import numpy as np
 from .. import common as C
 
 PROP = "C01"
-GEN_REGIONS = ["CoreKernels", "CudaKernels"]
+GEN_REGIONS = ["CoreKernels", "CudaKernels", "NumpyKernels"]
 THEOREMS = {
     "SpecKitV.Lemmas.Goertzel": ["goertzelS_dft", "forRange_goertzel", "segDFT_toC", "goertzel_pair_outputs", "goertzel_pair_segDFT"],
     "SpecKitV.Props.C01": [
@@ -24,11 +24,34 @@ THEOREMS = {
         "numba_cuda_agree_win_only_csd", "numba_cuda_agree_win_only_auto", "numba_cuda_agree_detrend0_csd",
         "numba_cuda_agree_detrend0_auto", "numba_cuda_agree_poly_csd", "numba_cuda_agree_poly_auto",
         "auto_is_diag", "ref_cross_is_X_conjY"],
+    # the NumPy fallbacks as TRANSLATED from core.py each run (Gen/NumpyKernels.lean) equal the reference, for every chunk size
+    "SpecKitV.Props.NumpyKernelsGen": [
+        "gen_gather_segments_spec",
+        "gen_np_win_only_auto_eq_ref", "gen_np_win_only_csd_eq_ref", "gen_np_detrend0_auto_eq_ref", "gen_np_detrend0_csd_eq_ref",
+        "gen_np_poly_auto_eq_ref", "gen_np_poly_csd_eq_ref",
+        "gen_np_win_only_auto_K0", "gen_np_win_only_csd_K0", "gen_np_detrend0_auto_K0", "gen_np_detrend0_csd_K0",
+        "gen_np_poly_auto_K0", "gen_np_poly_csd_K0", "gen_np_default_chunks_pos",
+        "np_numba_agree_win_only_auto", "np_numba_agree_win_only_csd", "np_numba_agree_detrend0_auto", "np_numba_agree_detrend0_csd",
+        "np_numba_agree_poly_auto", "np_numba_agree_poly_csd", "np_poly_csd_chunk_invariant",
+        "np_auto_is_diag_win_only", "np_auto_is_diag_detrend0", "np_auto_is_diag_poly",
+        "np_cross_is_X_conjY_win_only", "np_cross_is_X_conjY_detrend0", "np_cross_is_X_conjY_poly", "np_poly_csd_M2_nonneg"],
 }
 CONTRACTS = ["np.linalg.qr (through _build_Q) returns a basis Q; the kernels are proved equal to the estimator that subtracts Q Qᵀ seg for ANY Q",
-             "CUDA kernels are translated from core_cuda.py source and executed only under Numba's CUDA simulator"]
+             "CUDA kernels are translated from core_cuda.py source and executed only under Numba's CUDA simulator",
+             # contracts of the NumPy operations the translated fallbacks refer to (definitions in lean/SpecKitV/Np/NumpyKernels.lean)
+             "Np.sliceBound / Np.slice = v[lo:hi] (Python slice bounds: negative from the end, clamped; empty when hi <= lo)",
+             "Np.setSlice = `v[lo:hi] = u` (entries of the slice replaced; a length-1 u is broadcast; NumPy raises on any other length mismatch)",
+             "Np.empty = np.empty(K, dtype=float64): K entries of uninitialised memory (a parameter `uninit`; the theorems hold for every content)",
+             "Np.rangeLen = len(range(start, stop, step)) for step >= 1",
+             "Np.arange / Np.arangeF = np.arange(L, dtype=int64 / float64)",
+             "Np.outerAdd = s[:, None] + r[None, :];  Np.take2 = x[idx] with a 2-D integer index array (a fresh array)",
+             "Np.rowMean = a.mean(axis=1, keepdims=True);  Np.subCol = a - column;  Np.sub2 = a - b;  Np.mulRow / Np.rowMul = a * w, w * a "
+             "(w broadcast over rows);  Np.transpose = a.T;  Np.matmul = a @ b;  Np.matvecC = real matrix @ complex vector "
+             "(all reductions as left-to-right sums: NumPy's pairwise/BLAS order differs by rounding only)",
+             "Np.expI t = np.exp(1j*t) = cos t + i sin t;  np.nan_to_num is the identity on finite values (identity over the reals)"]
 ASSUMPTIONS = ["rounding / fastmath re-association are covered by the stated tolerance, not by theorem",
-               "theorems are over ℝ for the Lean translation of the kernels' source; NumPy fallbacks are tied by correspondence to Model.refStats"]
+               "theorems are over ℝ for the Lean translation of the kernels' source (Numba, CUDA and, through the whole-array NumPy contracts "
+               "listed in the trusted base, the NumPy fallbacks); the translation is executed in Float against the real functions each run"]
 RULE = ("cases = (backend function, record(s), L, start vector incl. repeated/unsorted/extreme starts, window with random signs, "
         "omega in {0, pi, tiny, on-bin, fractional}); distinct by (function, L, K, omega class, order); non-trivial = K>=2 or L>=3")
 
@@ -262,6 +285,11 @@ def correspondence(ctx) -> C.Part:
             P.disagreements.append({"op": "input-modified", "fn": name, "arrays": str(ex), "case": case_dump(name, c, Q, "numba/numpy"),
                                     "note": "the model's kernels are pure functions of their inputs; the implementation wrote into an input array"})
             continue
+        except Exception as ex:   # a kernel that raises on an in-range case: a broken correspondence (the oracle then looks for the failing input), not an infra error
+            P.cases += 1
+            P.disagreements.append({"op": "impl-raised", "fn": name, "error": repr(ex)[:300], "case": case_dump(name, c, Q, "numba/numpy"),
+                                    "note": "the implementation raised on an in-range case; the translated / model kernels are total"})
+            continue
         gen = tuple(ctx.driver.floats(driver_line(name, c, Q)))
         P.cases += 1
         key = (name, c["L"], len(c["starts"]), c["omega_class"])
@@ -298,7 +326,106 @@ def correspondence(ctx) -> C.Part:
                 P.notes.append(f"cuda simulator error: {ex!r}"[:200])
     if cuda:
         cuda.close()
+    # (d) the NumPy fallbacks as TRANSLATED from the source (Gen/NumpyKernels.lean) vs the real `_stats_*_np`, several chunk sizes;
+    #     its random choices come from a child generator seeded by ONE integer drawn here, after everything above
+    np_generated_vs_real(ctx, P, np.random.default_rng(int(ctx.rng.integers(0, 2 ** 31 - 1))))
     return P
+
+
+def gen_np_case(rng: np.random.Generator, i: int) -> Dict[str, Any]:
+    """small structured cases for the translated NumPy kernels: L in {1,2,3,generic}, K in {1,2,several}, repeated / unsorted / extreme
+    starts, omega in {0, pi, generic}"""
+    L = [1, 2, 3, int(rng.integers(4, 41))][(i // 6) % 4]
+    N = int(L + rng.integers(0, 60))
+    K = [1, 2, int(rng.integers(3, 10))][(i // 24) % 3]
+    mode = int(rng.integers(0, 4))
+    if mode == 0:
+        starts = rng.integers(0, N - L + 1, size=K)                    # unsorted, repeats possible
+    elif mode == 1:
+        starts = np.full(K, int(rng.integers(0, N - L + 1)))           # all equal
+    elif mode == 2:
+        starts = np.sort(rng.integers(0, N - L + 1, size=K))[::-1].copy()   # descending
+    else:
+        starts = rng.choice([0, N - L], size=K)                         # extremes
+    w = rng.standard_normal(L) if rng.random() < 0.6 else np.hanning(L + 2)[1:-1] + 0.05
+    ok = int(rng.integers(0, 3))
+    omega = [0.0, float(np.pi), float(rng.uniform(0.05, 3.0))][ok]
+    offs = float(rng.choice([0.0, 5.0])) * float(rng.standard_normal())
+    x1 = rng.standard_normal(N) + offs + float(rng.choice([0.0, 0.05])) * np.arange(N)
+    x2 = 0.5 * np.roll(x1, 1) + rng.standard_normal(N) - offs
+    return {"L": L, "N": N, "starts": starts.astype(np.int64), "w": w.astype(np.float64), "omega": omega, "x1": x1, "x2": x2,
+            "omega_class": ok, "start_mode": mode}
+
+
+def np_driver_line(name, c, Q, chunk):
+    cross = "csd" in name
+    parts = ["npkernel", name, C.arr(c["x1"])] + ([C.arr(c["x2"])] if cross else []) + [C.iarr(c["starts"]), str(c["L"]), C.arr(c["w"]), C.f2h(c["omega"])]
+    if "poly" in name:
+        parts.append(f"{Q.shape[0]} {Q.shape[1]} " + " ".join(C.f2h(v) for v in Q.reshape(-1)))
+    parts.append(str(int(chunk)))
+    return " ".join(parts)
+
+
+def np_generated_vs_real(ctx, P: C.Part, rng: np.random.Generator) -> None:
+    from speckit import core
+    n = ctx.scale(144, 1200)
+    for i in range(n):
+        if ctx.time_left() < 30:
+            P.notes.append("time budget reached (translated NumPy kernels)")
+            break
+        c = gen_np_case(rng, i)
+        name = NUMBA[i % 6] + "_np"
+        fn = getattr(core, name)
+        cross = "csd" in name
+        K = len(c["starts"])
+        Q = None
+        if "poly" in name:
+            # the equality theorems hold for ANY Q with Q.shape[0] == L: the real basis, or an arbitrary (non-orthonormal) matrix
+            Q = core._build_Q(c["L"], int(rng.choice([1, 2]))) if rng.random() < 0.6 else \
+                np.ascontiguousarray(rng.standard_normal((c["L"], int(rng.choice([2, 3])))) / np.sqrt(c["L"]))
+        default = int((fn.__kwdefaults__ or {}).get("_chunk", 0))
+        chunk = int(rng.choice([1, 1, 2, 2, 3, 3, K, K + 3, default]))
+        order = order_of(name, Q)
+        # the module's rounding budget (for poly kernels always with the amplification by Q, whatever its column count)
+        tol = tolerances(c["L"], c["omega"], 0.0, 0.0, c["x1"], c["x2"] if cross else c["x1"], c["starts"], c["w"],
+                         max(order, 1) if Q is not None else order, Q)
+        args = [c["x1"]] + ([c["x2"]] if cross else []) + [c["starts"], c["L"], c["w"], c["omega"]] + ([Q] if Q is not None else [])
+        snap = {k: c[k].tobytes() for k in ("x1", "x2", "w", "starts")}
+        try:
+            imp = tuple(float(v) for v in (fn(*args, _chunk=chunk) if chunk != default else fn(*args)))
+        except Exception as ex:
+            P.cases += 1
+            P.disagreements.append({"op": "npkernel", "fn": name, "chunk": chunk, "error": repr(ex)[:300], "case": case_dump(name, c, Q, "numpy"),
+                                    "note": "the real NumPy fallback raised on an in-range case; the translated definition is total"})
+            continue
+        changed = [k for k in snap if c[k].tobytes() != snap[k]]
+        P.cases += 1
+        if changed:
+            P.disagreements.append({"op": "input-modified", "fn": name, "arrays": ",".join(changed), "case": case_dump(name, c, Q, "numpy")})
+            continue
+        gen = tuple(ctx.driver.floats(np_driver_line(name, c, Q, chunk)))
+        if K >= 2 or c["L"] >= 3:
+            P.nontrivial.add(("npgen", name, c["L"], K, c["omega_class"], chunk))
+        P.hit(f"npgen:{name}")
+        P.hit("npgen:chunks=1" if chunk >= K else "npgen:chunks>=2")
+        P.hit(f"npgen:L={c['L']}" if c["L"] <= 3 else "npgen:L>=4")
+        P.hit(f"npgen:K={K}" if K <= 2 else "npgen:K>=3")
+        P.hit(f"npgen:omega_class_{c['omega_class']}")
+        if i < 2:
+            P.sample({"op": "npkernel", **case_summary(name, c, Q), "chunk": chunk, "impl": imp, "generated": gen})
+        bad = cmp5(imp, gen, tol)
+        if bad:
+            P.disagreements.append({"op": "npkernel", "fn": name, "chunk": chunk, "components": bad, "impl": imp, "generated_lean": gen, "tol": tol,
+                                    "case": case_dump(name, c, Q, "numpy")})
+        if i % 12 == 0:      # the translated gather itself, exactly
+            r = ctx.driver.ask("npgather " + C.arr(c["x1"]) + " " + C.iarr(c["starts"]) + " " + str(c["L"]))
+            want = core._gather_segments(c["x1"], c["starts"], c["L"])
+            head, _, cells = r.partition("|")
+            got = np.array([C.h2f(t) for t in cells.split()]).reshape(want.shape) if head.split() == [str(want.shape[0]), str(want.shape[1])] else None
+            P.cases += 1
+            P.hit("npgen:_gather_segments")
+            if got is None or not np.array_equal(got, want):
+                P.disagreements.append({"op": "npgather", "shape": head.strip(), "expected_shape": list(want.shape), "case": case_dump("_gather_segments", c, None, "numpy")})
 
 
 def check_case(P: C.Part, name: str, backend: str, c, Q, imp) -> None:
@@ -361,6 +488,57 @@ def oracle(ctx, intensive: bool = False, hints: List[Dict[str, Any]] = ()) -> C.
             P.sample({"op": "oracle", **case_summary(NUMBA[i % 6], c, None)})
         if len(P.violations) >= 5:
             break
+    # the TREND of orders 1, 2 is the least-squares polynomial of the segment (property text: x_k[n] - trend_k[n]): the kernels are run with the
+    # basis the library itself builds (core._build_Q) and compared with the direct evaluation that uses an INDEPENDENTLY orthonormalised
+    # polynomial basis (_an.poly_basis, extended precision) — even and odd L, records with offsets and drifts (seeded defect C01d: a closed-form
+    # basis that is not orthogonal on even-length grids). Tolerance: the usual rounding budget plus the projector difference allowed to a
+    # double-precision QR (1e-12 of the raw windowed magnitude).
+    from . import _an as _AN
+    from speckit import core as _core
+    n_tr = ctx.scale(24, 240) * (2 if intensive else 1)
+    for i in range(n_tr):
+        if ctx.time_left() < 10 or len(P.violations) >= 5:
+            break
+        order = 1 + i % 2
+        L = int([2, 3, 4, 5, 8, 16, 31, 64, 255, 256][i % 10] if i % 3 else ctx.rng.integers(order + 2, 400))
+        K = int(ctx.rng.integers(1, 6))
+        N = L + int(ctx.rng.integers(0, 3 * L + 1))
+        t = np.arange(N)
+        mk = lambda: ctx.rng.standard_normal(N) + float(ctx.rng.uniform(-50, 50)) + float(ctx.rng.uniform(-0.5, 0.5)) * t
+        c = {"L": L, "N": N, "starts": np.sort(ctx.rng.integers(0, N - L + 1, size=K)).astype(np.int64), "w": np.hanning(L + 2)[1:-1] + 0.05,
+             "omega": float(ctx.rng.uniform(0.05, 3.0)), "x1": mk(), "x2": mk(), "omega_class": 5, "start_mode": 0}
+        name = ["_stats_poly_auto", "_stats_poly_csd"][(i // 2) % 2]
+        cross = "csd" in name
+        try:
+            Qlib = np.ascontiguousarray(_core._build_Q(L, order))
+            Qref = np.asarray(_AN.poly_basis(L, order), dtype=np.longdouble)
+            ref, S1, S2 = direct(c["x1"], c["x2"], c["starts"], L, c["w"], c["omega"], order, Qref, cross)
+            tol = tolerances(L, c["omega"], S1, S2, c["x1"], c["x2"] if cross else c["x1"], c["starts"], c["w"], order, Qlib)
+            a = max(float(np.abs(c["x1"][int(st):int(st) + L] * c["w"]).sum()) for st in c["starts"])
+            b = max(float(np.abs(c["x2"][int(st):int(st) + L] * c["w"]).sum()) for st in c["starts"]) if cross else a
+            pj = 1e-12
+            tol = (tol[0] + pj * a * a, tol[1] + pj * b * b, tol[2] + pj * a * b, tol[3] + pj * a * b, tol[4] + 4 * pj * (a * b) ** 2)
+            for be, fn in (("numba", name), ("numpy", name + "_np")):
+                imp = impl_call(fn, c, Qlib)
+                P.cases += 1
+                P.hit(f"trend-ls:order{order}:{'even' if L % 2 == 0 else 'odd'}L")
+                if L > order + 1:
+                    P.nontrivial.add(("trend-ls", order, L % 2, cross, be))
+                bad = cmp5(imp, ref, tol)
+                if bad:
+                    k = bad[0]
+                    P.violations.append(C.Violation(
+                        what=f"{fn} with the library's own basis _build_Q(L={L}, order={order}): {('XX','YY','Re XY','Im XY','M2')[k]} = {imp[k]!r} but the estimate with the "
+                             f"least-squares polynomial trend of degree {order} removed from every segment is {ref[k]!r} (tol {tol[k]:.3g}; K={K}, "
+                             f"max|QtQ-I|={float(np.abs(Qlib.T @ Qlib - np.eye(Qlib.shape[1])).max()):.3g})",
+                        signature={"fn": name, "sub": "trend-is-least-squares", "order": order, "parity": L % 2},
+                        replay={"case": case_dump(name, c, Qlib, be), "order": order}))
+                    break
+        except InputModified:
+            continue
+        except Exception as ex:
+            P.violations.append(C.Violation(what=f"{name} / _build_Q(L={L}, order={order}) raised {ex!r}", signature={"fn": name, "raises": True, "sub": "trend-is-least-squares"},
+                                            replay={"L": L, "order": order, "error": repr(ex)}))
     if cuda:
         cuda.close()
     return P
@@ -381,5 +559,20 @@ def replay(ctx, data) -> C.Part:
             cu.close()
         else:
             imp = impl_call(name + ("_np" if be == "numpy" else ""), c, Q)
+        if "order" in v["replay"]:          # trend-is-least-squares: the reference uses an independently built polynomial basis, not the stored Q
+            from . import _an as _AN
+            order = int(v["replay"]["order"])
+            cross = "csd" in name
+            Qref = np.asarray(_AN.poly_basis(c["L"], order), dtype=np.longdouble)
+            ref, S1, S2 = direct(c["x1"], c["x2"], c["starts"], c["L"], c["w"], c["omega"], order, Qref, cross)
+            tol = tolerances(c["L"], c["omega"], S1, S2, c["x1"], c["x2"] if cross else c["x1"], c["starts"], c["w"], order, Q)
+            a = max(float(np.abs(c["x1"][int(st):int(st) + c["L"]] * c["w"]).sum()) for st in c["starts"])
+            tol = tuple(t + 1e-12 * a * a * 4 for t in tol)
+            P.cases += 1
+            bad = cmp5(imp, ref, tol)
+            if bad:
+                P.violations.append(C.Violation(what=f"replay: {name} with its stored basis differs from the least-squares-trend estimate in field {bad[0]}: {imp[bad[0]]!r} vs {ref[bad[0]]!r}",
+                                                signature={"fn": name, "sub": "trend-is-least-squares"}, replay=v["replay"]))
+            continue
         check_case(P, name, be, c, Q, imp)
     return P
